@@ -13,7 +13,7 @@ pub const IDX_BV: usize = 15;
 
 pub type T0 = Bvf<u8, 1>;
 pub type T1 = Bvf<u8, 2>;
-pub type T2 = Bvf<u8, 3>;
+pub type T2 = Bvf<u8, 7>;
 pub type T3 = Bvf<u16, 1>;
 pub type T4 = Bvf<u16, 3>;
 pub type T5 = Bvf<u32, 1>;
@@ -23,7 +23,7 @@ pub type T8 = Bvf<u64, 2>;
 pub type T9 = Bvf<u64, 3>;
 pub type T10 = Bvf<u128, 1>;
 pub type T11 = Bvf<u128, 3>;
-pub type T12 = Bvf<usize, 1>;
+pub type T12 = Bvf<u64, 8>;
 pub type T13 = Bvf<usize, 2>;
 pub type T14 = Bvd;
 pub type T15 = Bv;
@@ -31,7 +31,7 @@ pub type T15 = Bv;
 pub const TYPE_NAMES: [&str; NTYPES] = [
     "Bvf<u8,1>",
     "Bvf<u8,2>",
-    "Bvf<u8,3>",
+    "Bvf<u8,7>",
     "Bvf<u16,1>",
     "Bvf<u16,3>",
     "Bvf<u32,1>",
@@ -41,7 +41,7 @@ pub const TYPE_NAMES: [&str; NTYPES] = [
     "Bvf<u64,3>",
     "Bvf<u128,1>",
     "Bvf<u128,3>",
-    "Bvf<usize,1>",
+    "Bvf<u64,8>",
     "Bvf<usize,2>",
     "Bvd",
     "Bv",
@@ -53,7 +53,7 @@ pub const TYPE_WORD_BITS: [usize; NTYPES] =
 pub const TYPE_FIXED_CAP: [Option<usize>; NTYPES] = [
     Some(8),
     Some(16),
-    Some(24),
+    Some(56),
     Some(16),
     Some(48),
     Some(32),
@@ -63,7 +63,7 @@ pub const TYPE_FIXED_CAP: [Option<usize>; NTYPES] = [
     Some(192),
     Some(128),
     Some(384),
-    Some(64),
+    Some(512),
     Some(128),
     None,
     None,
@@ -538,7 +538,7 @@ macro_rules! impl_subject_fixed {
 
 impl_subject_fixed!(0, T0, u8, 1);
 impl_subject_fixed!(1, T1, u8, 2);
-impl_subject_fixed!(2, T2, u8, 3);
+impl_subject_fixed!(2, T2, u8, 7);
 impl_subject_fixed!(3, T3, u16, 1);
 impl_subject_fixed!(4, T4, u16, 3);
 impl_subject_fixed!(5, T5, u32, 1);
@@ -548,7 +548,7 @@ impl_subject_fixed!(8, T8, u64, 2);
 impl_subject_fixed!(9, T9, u64, 3);
 impl_subject_fixed!(10, T10, u128, 1);
 impl_subject_fixed!(11, T11, u128, 3);
-impl_subject_fixed!(12, T12, usize, 1);
+impl_subject_fixed!(12, T12, u64, 8);
 impl_subject_fixed!(13, T13, usize, 2);
 
 macro_rules! from_uint_infallible {
